@@ -90,7 +90,27 @@ def check_navigation(m, code, type_sets):
     lines = ref_split_lines(code, False)
     end = m.end_pos
     real = L
-    ends = [l.end_pos for l in real]
+    # leaf spans by the reference walker over prefix+value (never parso's own start_pos/end_pos: C03 checks those, and a
+    # lookup that agrees with a wrong end_pos is still a wrong lookup)
+    starts, ends = [], []
+    p = (1, 0)
+    prefixes = [l.prefix for l in real]
+    first_real = next((i for i, l in enumerate(real) if not is_zero_width(l)), None)
+    if first_real is not None and prefixes[first_real].startswith('\ufeff'):
+        prefixes[first_real] = prefixes[first_real][1:]        # a leading BOM has zero width
+    for i, l in enumerate(real):
+        prefix = prefixes[i]
+        if is_zero_width(l):
+            # pseudo tokens (INDENT/DEDENT error leaves) sit where the next real leaf's value starts
+            nxt = next((k for k in range(i + 1, len(real)) if not is_zero_width(real[k])), None)
+            z = advance(p, prefixes[nxt]) if nxt is not None else p
+            starts.append(z)
+            ends.append(z)
+            continue
+        s0 = advance(p, prefix)
+        p = advance(s0, l.value)
+        starts.append(s0)
+        ends.append(p)
     for li, line in enumerate(lines + ['']):
         for col in range(0, len(line) + 2):
             pos = (li + 1, col)
@@ -107,19 +127,19 @@ def check_navigation(m, code, type_sets):
                 if raised:
                     continue
                 exp = None
-                for l, e in zip(real, ends):
+                for l, s0, e in zip(real, starts, ends):
                     if e >= pos:
                         exp = l
+                        if not inc and pos < s0:
+                            exp = None
                         break
-                if exp is not None and not inc and pos < exp.start_pos:
-                    exp = None
                 if got is not exp:
                     return ('lookup', 'pos %r include_prefixes=%r: got %r expected %r' % (pos, inc, got, exp)), info
             # get_name_of_position
-            names = [l for l in L if l.type == 'name' and l.start_pos <= pos <= l.end_pos]
+            names = [l for l, s0, e in zip(real, starts, ends) if l.type == 'name' and s0 <= pos <= e]
             gn = m.get_name_of_position(pos)
             if names:
-                if gn is None or gn.type != 'name' or not (gn.start_pos <= pos <= gn.end_pos):
+                if gn is None or gn.type != 'name' or not any(gn is x for x in names):
                     return ('name-of-position', 'pos %r: got %r, candidates %r' % (pos, gn, names)), info
             elif gn is not None:
                 return ('name-of-position', 'pos %r: got %r but no name leaf contains it' % (pos, gn)), info
@@ -137,7 +157,7 @@ class C11(Prop):
     rule = ('Generated: trees of adversarial texts (error nodes, zero-width leaves, repeated operators) x 9 versions; for each '
             'tree ALL nodes, ALL leaves and EVERY (line, col) with col in 0..len(line)+1 (plus positions outside the file), both '
             'include_prefixes values, and 3 drawn type sets for search_ancestor. Oracle: in-order leaf list by own descent over '
-            'children; identity comparisons. Non-trivial: tree has >=2 equal-valued operator/keyword siblings under one parent '
+            'children with leaf spans from the reference character walker over prefix+value (not parso\'s positions); identity comparisons. Non-trivial: tree has >=2 equal-valued operator/keyword siblings under one parent '
             '(identity-vs-equality trap) or a zero-width error leaf. elementary_checks counts position lookups.')
     budgets = {'quick': 8000, 'thorough': 200000}
 
